@@ -325,7 +325,9 @@ class Encoder(object):
         if value <= 64:
             self.append_non_negative_binary_integer(value - 1, 7)
         elif value <= 127:
-            self.append_non_negative_binary_integer(0x100 | value, 9)
+            self.append_bit(1)
+            self.align()
+            self.append_non_negative_binary_integer(value, 8)
         else:
             raise NotImplementedError(
                 'Normally small length number >127 is not yet supported.')
@@ -509,11 +511,14 @@ class Decoder(object):
     def read_normally_small_length(self):
         if not self.read_bit():
             return self.read_non_negative_binary_integer(6) + 1
-        elif not self.read_bit():
-            return self.read_non_negative_binary_integer(7)
         else:
-            raise NotImplementedError(
-                'Normally small length number >64 is not yet supported.')
+            self.align()
+
+            if not self.read_bit():
+                return self.read_non_negative_binary_integer(7)
+            else:
+                raise NotImplementedError(
+                    'Normally small length number >127 is not yet supported.')
 
     def read_constrained_whole_number(self,
                                       minimum,
